@@ -33,6 +33,9 @@ type CORSSpec struct {
 	Methods  []string `json:"methods,omitempty"` // empty: computed from the container
 	Headers  []string `json:"headers,omitempty"` // allowed request headers
 	NoContnr bool     `json:"-"`
+	// UseDefault: the filter's Container field stays nil and the generated container is the
+	// package's DefaultContainer (computed methods then come from restful.DefaultContainer)
+	UseDefault bool `json:"use_default,omitempty"`
 }
 
 // CORSReq is one request of the sequence.
@@ -183,6 +186,7 @@ func genCORSCase(t *rapid.T, preflightHeavy bool) CORSCase {
 		}
 	}
 	c.Spec.Cookies = rapid.Bool().Draw(t, "cookies")
+	c.Spec.UseDefault = rapid.IntRange(0, 4).Draw(t, "usedefault") == 0
 	ne := rapid.IntRange(0, 2).Draw(t, "nexpose")
 	for i := 0; i < ne; i++ {
 		c.Spec.Expose = append(c.Spec.Expose, rapid.SampledFrom([]string{"X-Total", "X-Page", "ETag"}).Draw(t, "expose"))
@@ -326,9 +330,14 @@ func checkCORS(c CORSCase, property string) (vs []*Violation) {
 		}
 	}
 	withF, p2 := buildWith(c.Table, &harness.Options{Router: c.Router, ContainerFilters: 1, Setup: func(ct *restful.Container) {
-		cors.Container = ct
+		if spec.UseDefault {
+			restful.DefaultContainer = ct
+		} else {
+			cors.Container = ct
+		}
 		ct.Filter(cors.Filter)
 	}}, recF, true)
+	defer harness.ResetGlobals()
 	if p2 != nil {
 		return []*Violation{viol("", "building the table panicked: %v", p2)}
 	}
